@@ -325,6 +325,27 @@ func (c *Ctx) memWrites(fn *ssa.Function) []memWrite {
 					out = append(out, memWrite{in, x.Call.Args[1], "json.Unmarshal into " + c.key(x.Call.Args[1], nil)})
 				case strings.HasPrefix(name, "sort.") && len(x.Call.Args) >= 1:
 					out = append(out, memWrite{in, x.Call.Args[0], name + " on " + c.key(x.Call.Args[0], nil)})
+				case (strings.HasPrefix(name, "fmt.Fprint") || name == "io.WriteString") && len(x.Call.Args) >= 1:
+					// writes into the writer: if the writer is a pointer (a *strings.Builder, *bytes.Buffer), that object
+					if mi, ok := x.Call.Args[0].(*ssa.MakeInterface); ok {
+						if _, isPtr := mi.X.Type().Underlying().(*types.Pointer); isPtr {
+							out = append(out, memWrite{in, mi.X, name + " into " + c.key(mi.X, nil)})
+						}
+					}
+				default:
+					// a pointer-receiver method of a type outside the module (strings.Builder, bytes.Buffer, …) modifies
+					// its receiver unless it is one of the known read-only ones
+					g := x.Call.StaticCallee()
+					if g == nil || inModule(g) || g.Signature.Recv() == nil || len(x.Call.Args) == 0 {
+						break
+					}
+					if _, isPtr := g.Signature.Recv().Type().Underlying().(*types.Pointer); !isPtr {
+						break
+					}
+					if readOnlyForeignMethod(g) {
+						break
+					}
+					out = append(out, memWrite{in, x.Call.Args[0], "call of " + g.String() + " on " + c.key(x.Call.Args[0], nil)})
 				}
 			}
 		}
@@ -626,4 +647,29 @@ func ruleCALLSTATE(c *Ctx, r *Report) {
 		}
 	}
 	r.ok(rule, "no-global-writes", "-", fmt.Sprintf("%d memory writes examined", nW))
+}
+
+// readOnlyForeignMethod: pointer-receiver methods of standard-library types that do not modify their receiver
+// (and are documented as safe for concurrent use where that matters).
+func readOnlyForeignMethod(g *ssa.Function) bool {
+	recv := g.Signature.Recv().Type().String()
+	switch recv {
+	case "*regexp.Regexp", "*strings.Replacer", "*reflect.rtype", "*time.Location", "*math/big.Int", "*math/big.Float", "*math/big.Rat":
+		switch g.Name() {
+		case "Longest", "Set", "SetString", "SetInt64", "SetFloat64", "Add", "Sub", "Mul", "Quo", "Neg", "Abs":
+			return false
+		}
+		return true
+	case "*strings.Builder", "*bytes.Buffer", "*strings.Reader", "*bytes.Reader":
+		switch g.Name() {
+		case "String", "Len", "Cap", "Bytes", "Size", "Available":
+			return true
+		}
+		return false
+	}
+	switch g.Name() {
+	case "Error", "String", "GoString", "Unwrap", "Is":
+		return true
+	}
+	return false
 }
